@@ -1,0 +1,100 @@
+//go:build verif
+
+// Package verifhook provides instrumentation points for the external
+// verification harness. This file is only built with the "verif" build tag.
+//
+// Handlers are looked up in the context first (so that many instances under
+// test can live in one process, each with its own monitor),
+// and then in a process-wide registration.
+package verifhook
+
+import (
+	"context"
+	"runtime"
+	"runtime/debug"
+	"sync/atomic"
+)
+
+// PointFunc is called when a Point is reached.
+type PointFunc func(ctx context.Context, name string)
+
+// CatchFunc is called with a recovered panic value.
+type CatchFunc func(name string, val any, stack []byte)
+
+type pointKey struct{}
+type catchKey struct{}
+
+var (
+	globalPoint atomic.Pointer[PointFunc]
+	globalCatch atomic.Pointer[CatchFunc]
+)
+
+// WithPoints returns a context whose Points call fn.
+func WithPoints(ctx context.Context, fn PointFunc) context.Context {
+	return context.WithValue(ctx, pointKey{}, fn)
+}
+
+// WithCatcher returns a context whose Catch calls recover and reports to fn.
+func WithCatcher(ctx context.Context, fn CatchFunc) context.Context {
+	return context.WithValue(ctx, catchKey{}, fn)
+}
+
+// SetGlobalPoints registers a process-wide point handler (nil to remove).
+func SetGlobalPoints(fn PointFunc) {
+	if fn == nil {
+		globalPoint.Store(nil)
+		return
+	}
+	globalPoint.Store(&fn)
+}
+
+// SetGlobalCatcher registers a process-wide catcher (nil to remove).
+func SetGlobalCatcher(fn CatchFunc) {
+	if fn == nil {
+		globalCatch.Store(nil)
+		return
+	}
+	globalCatch.Store(&fn)
+}
+
+// Point runs the handler registered for ctx, or the global one, if any.
+func Point(ctx context.Context, name string) {
+	if ctx != nil {
+		if fn, ok := ctx.Value(pointKey{}).(PointFunc); ok && fn != nil {
+			fn(ctx, name)
+			return
+		}
+	}
+	if p := globalPoint.Load(); p != nil {
+		(*p)(ctx, name)
+	}
+}
+
+// Catch must be deferred directly. If a catcher is registered (in ctx or globally)
+// and the goroutine is panicking, the panic is recovered and reported,
+// turning the death of the process into a recorded fail-stop of one goroutine.
+// Without a registered catcher it does not call recover.
+func Catch(ctx context.Context, name string) {
+	var fn CatchFunc
+	if ctx != nil {
+		fn, _ = ctx.Value(catchKey{}).(CatchFunc)
+	}
+	if fn == nil {
+		if p := globalCatch.Load(); p != nil {
+			fn = *p
+		}
+	}
+	if fn == nil {
+		return
+	}
+	if x := recover(); x != nil {
+		fn(name, x, debug.Stack())
+	}
+}
+
+// Yield is a helper for handlers: it yields the processor n times.
+func Yield(n int) {
+	for i := 0; i < n; i++ {
+		runtime.Gosched()
+	}
+}
